@@ -853,7 +853,9 @@ int __wrap(pthread_mutex_unlock)(pthread_mutex_t *mutex) {
   (void)_;
   if (myth_should_wrap_pthread()) {
     myth_handle_PTHREAD_MUTEX_INITIALIZER(mutex);
-    ret = myth_mutex_unlock_body((myth_mutex_t *)mutex);
+    /* the body returns the number of failed attempts, not an error code */
+    (void)myth_mutex_unlock_body((myth_mutex_t *)mutex);
+    ret = 0;
   } else {
     ret = real_pthread_mutex_unlock(mutex);
   }
@@ -1469,7 +1471,9 @@ int __wrap(pthread_spin_lock)(pthread_spinlock_t *lock) {
   int ret;
   (void)_;
   if (myth_should_wrap_pthread()) {
-    ret = myth_spin_lock_body((myth_spinlock_t *)lock);
+    /* the body returns the number of failed attempts, not an error code */
+    (void)myth_spin_lock_body((myth_spinlock_t *)lock);
+    ret = 0;
   } else {
     ret = real_pthread_spin_lock(lock);
   }
